@@ -45,7 +45,7 @@ func rulesC17(p *Prog, r *Report) {
 				}
 				var gcalls []*ssa.Call
 				for _, o := range p.Origins(base) {
-					if o.Kind == "call" && len(o.Path) == 0 && p.callIs(o.Call, "GetTwa") {
+					if o.Kind == "call" && len(o.Path) == 0 && (p.callIs(o.Call, "GetTwa") || (o.Index == 0 && p.isGuardedTwaGetterCall(o.Call))) {
 						gcalls = append(gcalls, o.Call)
 					}
 				}
@@ -213,8 +213,81 @@ func rulesC17(p *Prog, r *Report) {
 			}
 			return passEdge(onT, sT), passEdge(onF, sF)
 		}}
+		// a pure helper that wraps the cursor: wrap(index, n) returns 0 on index >= n and index otherwise
+		isWrapCall := func(v ssa.Value) bool {
+			c, ok := v.(*ssa.Call)
+			if !ok {
+				return false
+			}
+			h := c.Call.StaticCallee()
+			if h == nil || h.Pkg != fn.Pkg || len(h.Blocks) == 0 || len(h.Params) != 2 || len(c.Call.Args) != 2 {
+				return false
+			}
+			if !nf(c.Call.Args[1]) {
+				return false
+			}
+			a0 := c.Call.Args[0]
+			if bo, isBo := a0.(*ssa.BinOp); isBo && bo.Op == token.ADD {
+				a0 = bo.X
+			}
+			if !isIdx(a0) {
+				return false
+			}
+			nRet := 0
+			for _, b := range h.Blocks {
+				rt, isRt := b.Instrs[len(b.Instrs)-1].(*ssa.Return)
+				if !isRt || len(rt.Results) != 1 {
+					continue
+				}
+				nRet++
+				// the edge into this return block
+				if len(b.Preds) != 1 {
+					return false
+				}
+				pb := b.Preds[0]
+				ifi, isIf := pb.Instrs[len(pb.Instrs)-1].(*ssa.If)
+				if !isIf {
+					return false
+				}
+				x, y, onT, onF, isCmp := p.CmpRel(ifi.Cond)
+				if !isCmp || x == nil || y == nil {
+					return false
+				}
+				switch {
+				case x == ssa.Value(h.Params[0]) && y == ssa.Value(h.Params[1]):
+				case y == ssa.Value(h.Params[0]) && x == ssa.Value(h.Params[1]):
+					onT, onF = onT.mirror(), onF.mirror()
+				default:
+					return false
+				}
+				rel := onF
+				if pb.Succs[0] == b {
+					rel = onT
+				}
+				switch {
+				case isZeroValue(rt.Results[0]) && rel.subsetOf(RGE):
+				case rt.Results[0] == ssa.Value(h.Params[0]) && rel.subsetOf(RLT):
+				default:
+					return false
+				}
+			}
+			return nRet == 2
+		}
+		wrapBlocks := map[*ssa.BasicBlock]bool{}
+		for _, st := range fieldStores(fn, "TimeWeightedAverage", "CurrentIndex") {
+			if isWrapCall(st.Val) {
+				wrapBlocks[st.Block()] = true
+			}
+		}
 		n := 0
 		for _, st := range fieldStores(fn, "TimeWeightedAverage", "CurrentIndex") {
+			if isWrapCall(st.Val) {
+				n++
+				r.Instance("R17.3")
+				r.FuncsSeen[fname(fn)] = true
+				r.OK("R17.3", fmt.Sprintf("%s cursor wrapped #%d", fname(fn), n), "the cursor is passed through a helper that returns it below N or 0", p.instrPos(st))
+				continue
+			}
 			bo, ok := st.Val.(*ssa.BinOp)
 			isOne := false
 			if c, isC := st.Val.(*ssa.Const); isC && c.Value != nil && c.Value.ExactString() == "1" {
@@ -239,19 +312,32 @@ func rulesC17(p *Prog, r *Report) {
 			for e := range pass {
 				cut[e] = true
 			}
-			seen, par := reach(fn, st.Block(), cut, nil)
+			blockedW := map[*ssa.BasicBlock]bool{}
+			for b := range wrapBlocks {
+				if b != st.Block() {
+					blockedW[b] = true
+				}
+			}
+			seen, par := reach(fn, st.Block(), cut, blockedW)
 			bad := ""
 			var wit []string
 			// SetTwa later in the same block without any test
 			after := false
+			wrappedHere := false
 			for _, in := range st.Block().Instrs {
 				if in == st {
 					after = true
 					continue
 				}
-				if c, ok := in.(ssa.CallInstruction); ok && after && p.callIsFn(c, setTwa) {
+				if s2, ok := in.(*ssa.Store); ok && after && isWrapCall(s2.Val) {
+					wrappedHere = true
+				}
+				if c, ok := in.(ssa.CallInstruction); ok && after && !wrappedHere && p.callIsFn(c, setTwa) {
 					bad = p.instrPos(c)
 				}
+			}
+			if wrappedHere {
+				seen = map[*ssa.BasicBlock]bool{}
 			}
 			for _, c := range calls(fn) {
 				if p.callIsFn(c, setTwa) && c.Block() != st.Block() && seen[c.Block()] {
@@ -315,20 +401,25 @@ func rulesC17(p *Prog, r *Report) {
 	// R17.5 the mean is narrowed, not the sum ---------------------------------------------
 	r.Rule("R17.5", "the wide window sum is divided before it is narrowed to 64 bits", 1)
 	{
-		calc := p.MustFunc("x/market/keeper.Keeper.CalculateTwa")
-		// loop-carried accumulators of a non-basic (wide) type
+		calc0 := p.MustFunc("x/market/keeper.Keeper.CalculateTwa")
+		calc := calc0
+		// loop-carried accumulators of a non-basic (wide) type (the mean may sit in a pure helper)
 		acc := map[ssa.Value]bool{}
-		for _, l := range loopsOf(calc) {
-			for _, in := range l.Head.Instrs {
-				if ph, ok := in.(*ssa.Phi); ok {
-					if _, isBasic := ph.Type().Underlying().(*types.Basic); !isBasic {
-						acc[ph] = true
+		var calcCalls []ssa.CallInstruction
+		for _, f := range p.withSamePkgHelpers(calc0) {
+			for _, l := range loopsOf(f) {
+				for _, in := range l.Head.Instrs {
+					if ph, ok := in.(*ssa.Phi); ok {
+						if _, isBasic := ph.Type().Underlying().(*types.Basic); !isBasic {
+							acc[ph] = true
+						}
 					}
 				}
 			}
+			calcCalls = append(calcCalls, calls(f)...)
 		}
 		n := 0
-		for _, c := range calls(calc) {
+		for _, c := range calcCalls {
 			call, ok := c.(*ssa.Call)
 			if !ok || len(call.Call.Args) != 1 {
 				continue
@@ -382,7 +473,11 @@ func rulesC17(p *Prog, r *Report) {
 		r.Instance("R17.4")
 		r.FuncsSeen[fname(calcTwa)] = true
 		bad := ""
-		for _, l := range loopsOf(calcTwa) {
+		var calcLoops []*Loop
+		for _, f := range p.withSamePkgHelpers(calcTwa) {
+			calcLoops = append(calcLoops, loopsOf(f)...)
+		}
+		for _, l := range calcLoops {
 			for _, in := range l.Head.Instrs {
 				ph, ok := in.(*ssa.Phi)
 				if !ok {
@@ -402,6 +497,9 @@ func rulesC17(p *Prog, r *Report) {
 								if ia, ok := u.X.(*ssa.IndexAddr); ok {
 									if t, f, _, ok := fieldRead(ia.X); ok && t == "TimeWeightedAverage" && f == "PriceValue" {
 										bad = p.instrPos(bo)
+									}
+									if _, isParam := ia.X.(*ssa.Parameter); isParam {
+										bad = p.instrPos(bo) // the sample slice handed to a helper
 									}
 								}
 							}
